@@ -76,8 +76,9 @@ def gen_page_graph(rng) -> Tuple[Dict[int, Any], Any]:
             elif r < 0.87:
                 kids.append(("dict", [(b"Type", ("name", b"Page")), (b"X", ("int", i))]))
             elif r < 0.93:
-                kids.append(("dict", [(b"Type", ("name", b"Pages")),
-                                      (b"Kids", ("arr", [("ref", rng.choice(ids))]))]))
+                # an intermediate node written directly into Kids; its own Kids direct or by reference
+                kv = ("arr", [("ref", rng.choice(ids))]) if rng.random() < 0.5 else ("ref", rng.choice(ids))
+                kids.append(("dict", [(b"Type", ("name", b"Pages")), (b"Kids", kv)]))
             else:
                 kids.append(gen_scalar(rng, n))
         entries = []
@@ -94,6 +95,13 @@ def gen_page_graph(rng) -> Tuple[Dict[int, Any], Any]:
         g[i] = ("dict", entries) if rng.random() < 0.92 else gen_value(rng, n, 2)
     if rng.random() < 0.15:
         g[rng.choice(ids)] = ("ref", rng.choice(ids))
+    if rng.random() < 0.15:
+        # an array object holding a direct /Pages node whose Kids is that array again
+        a = rng.choice(ids)
+        g[a] = ("arr", [("dict", [(b"Type", ("name", b"Pages")), (b"Kids", ("ref", a))]), ("ref", rng.choice(ids))])
+        b = rng.choice(ids)
+        if b != a and g[b][0] == "dict":
+            g[b] = ("dict", [(k, v) for k, v in g[b][1] if k != b"Kids"] + [(b"Kids", ("ref", a))])
     cat = [(b"Type", ("name", b"Catalog"))]
     r = rng.random()
     if r < 0.85:
@@ -500,6 +508,10 @@ def run_xref_cases(ctx: C.Ctx, record) -> None:
                 return ("val", ("int", rng.choice([-1, -7])))
             if r < 0.8:
                 v = gen_scalar(rng, 2)
+                if v[0] in ("int", "bool"):
+                    # an arbitrary offset lands in the middle of some token: outside the model's abstraction
+                    # (positions are section starts, beyond EOF, or negative)
+                    return ("val", ("int", -abs(int(v[1])) - 1))
                 return ("val", ("null",) if v[0] == "ref" else v)   # no document behind this parser: no references
             return None
         for i in range(k):
